@@ -68,17 +68,34 @@ Script(l) ==
        [op |-> "setdoc",   arg |-> [NoArg EXCEPT !.k = DocK(l, 5), !.ii = (Mix(l) \div 3) % 2 = 1]],
        [op |-> "setref",   arg |-> [NoArg EXCEPT !.g = 7]] >>
 
-Init ==
-    /\ lay \in {l \in AllLayouts : Sampled(l)}
-    /\ src = Text(lay)
+\* the layouts are enumerated dimension by dimension (= AllLayouts, without building the set)
+Start(l) ==
+    /\ Sampled(l)
+    /\ lay = l
+    /\ src = Text(l)
     /\ labels = {}
     /\ g = 7
     /\ pc = "start"
     /\ text = <<>>
     /\ cur = Rejected("") /\ prev = Rejected("") /\ res = Rejected("")
     /\ op = "capture" /\ arg = NoArg
-    /\ cn = CellsName(lay)
+    /\ cn = CellsName(l)
     /\ nops = 0
+
+Init ==
+    \/ \E f \in DefForms, w \in WsKinds, dc \in 0..(NDeco - 1), p \in {"none", "both"},
+          h \in {"norm", "ann", "ml"}, ds \in OrigDocs, b \in 0..(NBody - 1), t \in {"none", "tc", "last"} :
+          Start([form |-> f, ws |-> w, deco |-> dc, pre |-> p, hdr |-> h, doc |-> ds, body |-> b,
+                 tail |-> t, embed |-> "-", ml |-> "-", lbody |-> "-", lpar |-> "-", cmt |-> FALSE])
+    \/ \E f \in DefForms, w \in WsKinds, dc \in 0..(NDeco - 1), p \in {"none", "both"},
+          ds \in {0, 2}, t \in {"none", "tc"} :
+          Start([form |-> f, ws |-> w, deco |-> dc, pre |-> p, hdr |-> "one", doc |-> ds, body |-> 0,
+                 tail |-> t, embed |-> "-", ml |-> "-", lbody |-> "-", lpar |-> "-", cmt |-> FALSE])
+    \/ \E f \in LamForms, w \in WsKinds, e \in Embeds, m \in MlKinds,
+          lb \in {"plain", "compr", "pp"}, lp \in {"xy", "x", "none"}, c \in BOOLEAN :
+          /\ LamValid(f, e, m)
+          /\ Start([form |-> f, ws |-> w, deco |-> 0, pre |-> "none", hdr |-> "-", doc |-> 0, body |-> 0,
+                    tail |-> "-", embed |-> e, ml |-> m, lbody |-> lb, lpar |-> lp, cmt |-> c])
 
 -----------------------------------------------------------------------------------------------------------------------------------------------------
 (* property layer: the labels an operation earns, evaluated on the          *)
